@@ -62,6 +62,8 @@ def loop_shape(fn, ctx, L):
                 return True
             return False
         mains = [f_ for f_ in fs if is_main(f_)]
+        if len(mains) > 1 and all(f_[0] in ("<", "<=") for f_ in mains):
+            mains = mains[:1]        # several upper bounds (v < A && v < B): the first is the bound, the others are stop conditions
         if len(mains) != 1:
             return out
         extra = [f_ for f_ in fs if f_ is not mains[0]]
